@@ -35,6 +35,7 @@ type funk struct {
 	varResumables     map[t.ID]bool
 	derivedVars       map[t.ID]struct{}
 	jumpTargets       map[a.Loop]string
+	iterateJumps      map[a.Loop]iterateJump
 	activeLoops       a.LoopStack
 	coroSuspPoint     uint32
 	ioManips          uint32
@@ -43,6 +44,15 @@ type funk struct {
 	usesEmptyIOBuffer bool
 	usesScratch       bool
 	hasGotoOK         bool
+}
+
+// iterateJump holds the C labels that a break or continue statement jumps to
+// when its target is an iterate loop (or one of its else rounds). A C "break"
+// or "continue" would only leave, or would skip the pointer advance of, the
+// one C while loop that the current round and unrolled copy is written as.
+type iterateJump struct {
+	breakLabel    string
+	continueLabel string
 }
 
 func (k *funk) jumpTarget(tm *t.Map, n a.Loop) (string, error) {
